@@ -444,12 +444,40 @@ def part3_cases(tier, seed):
     base = designs.expr_cases(8 if tier == 'quick' else 30, seed + 11, n=5, maxw=4, nrom=0) + \
         [c for c in designs.seq_cases(widths=(3,)) if c['kind'] in ('chain', 'mem_rdw', 'counter', 'rom_reg')]
     out = []
-    for c in base:
-        out.append(dict(c, part=3, fault=None))
-        for f in FAULTS:
+    for ci, c in enumerate(base):
+        for mode in MODES:
+            out.append(dict(c, part=3, fault=None, mode=mode))
+        for fi, f in enumerate(FAULTS):
             for site in range(3 if tier == 'quick' else 6):
-                out.append(dict(c, part=3, fault=f, fsite=site))
+                modes = MODES if (site == 0 or tier != 'quick') else [MODES[(ci + fi + site) % len(MODES)]]
+                for mode in modes:
+                    out.append(dict(c, part=3, fault=f, fsite=site, mode=mode))
     return out
+
+
+# how the checks are invoked: 'fresh' = on the faulty block, which is also the working block; 'after_check' = the same block
+# object was checked and simulated while still well formed, then the fault is injected, then it is checked again (a history:
+# anything remembered from the first check must not mask the fault); 'foreign_wb' = the faulty block is passed as block= while a
+# different, well-formed block is the working block
+MODES = ['fresh', 'after_check', 'foreign_wb']
+
+
+def other_block():
+    b = pyrtl.Block()
+    with pyrtl.set_working_block(b, no_sanity_check=True):
+        x = pyrtl.Input(2, 'x_other')
+        y = pyrtl.Output(2, 'y_other')
+        y <<= ~x
+    return b
+
+
+def checked(case, block):
+    """acceptors under the invocation mode of the case"""
+    if case.get('mode') == 'foreign_wb':
+        with pyrtl.set_working_block(other_block(), no_sanity_check=True):
+            return acceptors(block)
+    with pyrtl.set_working_block(block, no_sanity_check=True):
+        return acceptors(block)
 
 
 def inject(block, fault, fsite):
@@ -585,15 +613,17 @@ def _acceptors(block, res):
 def run_part3(case, ob, site):
     block = designs.build(case)
     if case['fault'] is None:
-        res = acceptors(block)
+        res = checked(case, block)
         for k, v in res.items():
             ob.fact('well-formed-design-accepted-by-%s' % k, v is None, site + ':rejects-well-formed:' + k, detail=v)
         return
+    if case.get('mode') == 'after_check':
+        checked(case, block)          # the history: checked and simulated while well formed
     if not inject(block, case['fault'], case['fsite']):
         ob.notes.append('fault not applicable at that site')
         ob.fact('not-applicable', True)
         return
-    res = acceptors(block)
+    res = checked(case, block)
     for k, v in res.items():
         if k == 'sanity_check' and case['fault'] in CYCLES:
             ob.notes.append('sanity_check alone %s a combinational cycle (the property allows rejection at simulator construction)'
@@ -618,7 +648,7 @@ def site_of(c):
         return s
     if c['part'] == 2:
         return 'C10:iter:%s' % (c.get('kind') or c['fam'])
-    return 'C10:fault:%s' % c['fault']
+    return 'C10:fault:%s%s' % (c['fault'], '' if c.get('mode', 'fresh') == 'fresh' else ':' + c['mode'])
 
 
 def run_case(case, ob, tier):
@@ -630,12 +660,14 @@ def replay(cex):
     if c['part'] == 3:
         block = designs.build(c)
         if c['fault'] is None:
-            res = acceptors(block)
+            res = checked(c, block)
             bad = {k: v for k, v in res.items() if v is not None}
             return bool(bad), 'well-formed design rejected: %r' % bad
+        if c.get('mode') == 'after_check':
+            checked(c, block)
         if not inject(block, c['fault'], c['fsite']):
             return False, 'fault not applicable'
-        res = acceptors(block)
+        res = checked(c, block)
         bad = {k: v for k, v in res.items() if v != 'rejected' and not (k == 'sanity_check' and c['fault'] in CYCLES)}
         return bool(bad), 'fault %s at site %d: not rejected by %r' % (c['fault'], c['fsite'], bad)
     if c['part'] == 2:
